@@ -948,6 +948,52 @@ impl Family for LongMultibyteTexts {
     }
 }
 
+/// the statements the library answers itself, followed by every string of <= 3 tokens from a
+/// small SQL-ish vocabulary (scopes, quotes, terminators, dots, keywords, odd bytes): whatever
+/// grammar an implementation grows for them must not panic on its own edge cases
+struct BuiltinTails;
+const BT_PREFIX: [&[u8]; 5] = [b"SELECT @@", b"select @@", b"USE ", b"use ", b"SELECT @@max_allowed_packet"];
+const BT_TOKENS: [&[u8]; 17] = [b"session.", b"global.", b"local.", b"x", b"max_allowed_packet", b".", b"`", b";", b" ", b" limit 1", b"@", b"\0", b"\xff", b"version_comment", b"/*", b"*/", b"'"];
+impl BuiltinTails {
+    fn text(idx: u64) -> Vec<u8> {
+        let n = BT_TOKENS.len() as u64;
+        let per = 1 + n + n * n + n * n * n;
+        let mut t = BT_PREFIX[(idx / per) as usize].to_vec();
+        let mut r = idx % per;
+        let len = if r == 0 { 0 } else if r <= n { r -= 1; 1 } else if r <= n + n * n { r -= 1 + n; 2 } else { r -= 1 + n + n * n; 3 };
+        let mut toks = Vec::new();
+        for _ in 0..len {
+            toks.push((r % n) as usize);
+            r /= n;
+        }
+        for k in toks {
+            t.extend_from_slice(BT_TOKENS[k]);
+        }
+        t
+    }
+}
+impl Family for BuiltinTails {
+    fn name(&self) -> String {
+        "library-answered-statements-with-every-short-tail".into()
+    }
+    fn len(&self) -> u64 {
+        let n = BT_TOKENS.len() as u64;
+        BT_PREFIX.len() as u64 * (1 + n + n * n + n * n * n)
+    }
+    fn run(&self, idx: u64, st: &mut Stats) -> Result<(), Violation> {
+        let t = Self::text(idx);
+        st.nontrivial += 1;
+        st.bump("builtin_tails");
+        let mut s = prefix(1);
+        s.extend_from_slice(&frame(0, &with_byte(COM_QUERY, &t)).0);
+        s.extend_from_slice(&frame(0, &[COM_PING]).0);
+        judge(s, &format!("query {:?}", String::from_utf8_lossy(&t)), st)
+    }
+    fn describe(&self, idx: u64) -> J {
+        json!({"query": String::from_utf8_lossy(&Self::text(idx))})
+    }
+}
+
 /// statements with very many parameters (counts around 2^8, 2^15 and 2^16), executed with a full
 /// type table and values, with the table only, with NULLs only, reusing the table, and with blocks
 /// cut at several points: arithmetic on the count (2 * n, n + 7, n / 8) must not overflow or index
@@ -1126,6 +1172,7 @@ pub fn build(quick: bool) -> Check {
     families.push(Box::new(Utf8Texts));
     families.push(Box::new(LongMultibyteTexts));
     families.push(Box::new(WideStatements));
+    families.push(Box::new(BuiltinTails));
     families.push(Box::new(LenencExtremes));
     families.push(Box::new(HandshakeTails));
     families.push(Box::new(LargeInputs::new(if quick { &[MAXP, MAXP + 7] } else { &[MAXP - 1, MAXP, MAXP + 7, 2 * MAXP, 2 * MAXP + 7] })));
@@ -1135,7 +1182,7 @@ pub fn build(quick: bool) -> Check {
     Check {
         id: "C20",
         level: "model_checking",
-        rule: "texts of 0..444 bytes made of 2-, 3- and 4-byte characters behind 0..3 ASCII bytes (every byte offset falls inside a character for some text) as USE / COM_INIT_DB / query / PREPARE / COM_FIELD_LIST text; statements of 255..65535 parameters executed with full, reusing, all-NULL and cut blocks and with long data for the last parameter; client byte strings: all raw strings of length <= 5/7 over a 13-symbol alphabet of command and marker bytes (after handshake+PREPARE, and as the handshake itself); all framed payloads of length <= 2/3 over all 256 byte values; COM_STMT_EXECUTE parameter blocks (4 bitmaps x 3 flags x 256 type codes x unsigned x values of <= 3 bytes over 6 marker bytes, with and without a preceding valid bind; 1/2/9 declared parameters); every prefix of well-formed bind and reuse blocks x NULL bitmaps x pending long data x earlier bind; for 5 valid conversations and 3 handshake forms every single-byte substitution by every value (this includes every sequence id 0..255 and every length-field value on every packet), every truncation, deletion and duplication; two-fragment requests with every pair of fragment ids from a boundary set; variable-length parameter values behind every length-prefix form announcing 0..2^64-1 bytes (and every length byte for the temporal types) with 0..300 bytes present; requests of 2^24-1 bytes and more, well-formed or with a missing / lying continuation, under a read boundary at every position around each packet header and the end of the stream; every statement lifecycle of <= 4 (thorough: 6) actions over re-prepares with 1/2/3 parameters, bind/reuse executions, long data and close, encoded by a client that follows the re-prepares and by one that does not, and of <= 5 (6) actions with a second statement (prepare, execute, long data, close) next to it, each ending at a packet boundary and two bytes into a header; query / prepare / init-db / USE texts with a multi-byte character at every byte offset 0..12, whole, cut inside the character, and behind a stray continuation byte; an SSL request (to a shim that offers TLS) followed by anything but a TLS handshake: every 1- (thorough: 2-) byte string, TLS record headers of every content type / version / length class with partial bodies, a plaintext handshake response, a recorded ClientHello with every byte damaged five ways and every truncation - the shim must never be reached. Oracle: run_on returns (Ok or Err) without panicking and within 200000 transport operations; flushed output is well-framed. Non-trivial = input differs from a valid conversation.".into(),
+        rule: "SELECT @@ / USE statements followed by every string of <= 3 tokens from a 17-token SQL-ish vocabulary; texts of 0..444 bytes made of 2-, 3- and 4-byte characters behind 0..3 ASCII bytes (every byte offset falls inside a character for some text) as USE / COM_INIT_DB / query / PREPARE / COM_FIELD_LIST text; statements of 255..65535 parameters executed with full, reusing, all-NULL and cut blocks and with long data for the last parameter; client byte strings: all raw strings of length <= 5/7 over a 13-symbol alphabet of command and marker bytes (after handshake+PREPARE, and as the handshake itself); all framed payloads of length <= 2/3 over all 256 byte values; COM_STMT_EXECUTE parameter blocks (4 bitmaps x 3 flags x 256 type codes x unsigned x values of <= 3 bytes over 6 marker bytes, with and without a preceding valid bind; 1/2/9 declared parameters); every prefix of well-formed bind and reuse blocks x NULL bitmaps x pending long data x earlier bind; for 5 valid conversations and 3 handshake forms every single-byte substitution by every value (this includes every sequence id 0..255 and every length-field value on every packet), every truncation, deletion and duplication; two-fragment requests with every pair of fragment ids from a boundary set; variable-length parameter values behind every length-prefix form announcing 0..2^64-1 bytes (and every length byte for the temporal types) with 0..300 bytes present; requests of 2^24-1 bytes and more, well-formed or with a missing / lying continuation, under a read boundary at every position around each packet header and the end of the stream; every statement lifecycle of <= 4 (thorough: 6) actions over re-prepares with 1/2/3 parameters, bind/reuse executions, long data and close, encoded by a client that follows the re-prepares and by one that does not, and of <= 5 (6) actions with a second statement (prepare, execute, long data, close) next to it, each ending at a packet boundary and two bytes into a header; query / prepare / init-db / USE texts with a multi-byte character at every byte offset 0..12, whole, cut inside the character, and behind a stray continuation byte; an SSL request (to a shim that offers TLS) followed by anything but a TLS handshake: every 1- (thorough: 2-) byte string, TLS record headers of every content type / version / length class with partial bodies, a plaintext handshake response, a recorded ClientHello with every byte damaged five ways and every truncation - the shim must never be reached. Oracle: run_on returns (Ok or Err) without panicking and within 200000 transport operations; flushed output is well-framed. Non-trivial = input differs from a valid conversation.".into(),
         assumptions: vec![
             "random bytes are not used as a deciding step (sampling is outside this family)".into(),
             "the shim iterates all parameters and reads them with into_inner(); the panicking From<Value> conversions are the shim author's calls, not run_on's".into(),
@@ -1144,6 +1191,6 @@ pub fn build(quick: bool) -> Check {
         exhaustive: true,
         caps_hit: vec![],
         families,
-        required: vec!["long_multibyte_texts", "wide_statements", "handshake_tail_cases", "utf8_texts", "lifecycle_inputs", "tls_garbage_cases", "length_prefix_cases", "large_inputs", "outcome_ok", "outcome_err", "executes_reaching_the_shim", "sequence_id_mutations", "length_field_mutations", "out_of_order_fragments", "block_prefixes"],
+        required: vec!["builtin_tails", "long_multibyte_texts", "wide_statements", "handshake_tail_cases", "utf8_texts", "lifecycle_inputs", "tls_garbage_cases", "length_prefix_cases", "large_inputs", "outcome_ok", "outcome_err", "executes_reaching_the_shim", "sequence_id_mutations", "length_field_mutations", "out_of_order_fragments", "block_prefixes"],
     }
 }
